@@ -6,7 +6,9 @@ Line-protocol driver for the payments model (property C06).
 
   init <nch> <max_routing_fee_msat> <max_feerate_percentage> <cltv_delta> <velocity limit_msat> h|d|u
        <feerate_per_kw> <htlc_timeout_tx_weight> <htlc_success_tx_weight>     (trim thresholds of the commitments)
+       <max_invoices>
   keysend|invoice … neg                           the approver declines (NegativeApprover)
+  allowpayee                                      the payee of all invoices/keysends is put on the node's allowlist
   keysend <h> <amount_msat> <now>                 answers: true | false (velocity) | err | panic
   invoice <h> <amount_msat> <now> <expiry> <tag>  a BOLT-11 invoice issued at <now>
   cpsign <c> new|retry <offered> <received>       HTLC lists: `-` or `h:value_sat:cltv,...`
@@ -28,6 +30,8 @@ open VlsModel VlsModel.Payments VlsModel.Drv
 structure St where
   node : Node
   dead : Bool
+  /-- the payee of the harness's invoices / keysends is on the node's allowlist (`allowpayee`; persisted with the node) -/
+  allow : Bool := false
 
 def optS : Option Nat → String
   | none => "-"
@@ -75,19 +79,25 @@ def decline (s : St) (h : Hash) (inv : Invoice) : St × String :=
 
 /-- an approval: the answer class comes from `Node.approve` (Ok(true) / Ok(false) / Err), the state from `Node.step` -/
 def approve (s : St) (h : Hash) (inv : Invoice) (now : Nat) : St × String :=
-  let cls := match (s.node.approve h inv now).2 with
+  let cls := if s.node.full && (s.node.invoices h).isNone then "err" else match (s.node.approve h inv now).2 with
     | .added => "true" | .same => "true" | .declined => "false" | .different => "err" | .panic => "panic"
   run s (.approve h inv now) (fun _ => cls)
 
+/-- a proposal through the approver of vls-protocol-signer -/
+def propose (s : St) (isInvoice approverYes : Bool) (h : Hash) (inv : Invoice) (now : Nat) : St × String :=
+  match proposalOp isInvoice s.allow approverYes h inv now with
+  | .approve h inv now => approve s h inv now
+  | _ => decline s h inv
+
 def step (s : St) (toks : List String) : St × String :=
   match toks with
-  | ["init", nch, mf, pct, cd, vl, vt, fr, wt, ws] =>
-    match nat? nch, nat? mf, nat? pct, nat? cd, nat? vl, itype? vt, nat? fr, nat? wt, nat? ws with
-    | some nch, some mf, some pct, some cd, some vl, some vt, some fr, some wt, some ws =>
+  | ["init", nch, mf, pct, cd, vl, vt, fr, wt, ws, mi] =>
+    match nat? nch, nat? mf, nat? pct, nat? cd, nat? vl, itype? vt, nat? fr, nat? wt, nat? ws, nat? mi with
+    | some nch, some mf, some pct, some cd, some vl, some vt, some fr, some wt, some ws, some mi =>
       let n := Node.init nch ⟨mf, pct, cd⟩ ⟨vl, vt⟩
-        ⟨dustLimit Gen.Payments.minDustLimit fr wt, dustLimit Gen.Payments.minDustLimit fr ws⟩
-      (⟨n, false⟩, "ok " ++ digest n)
-    | _, _, _, _, _, _, _, _, _ => (s, "bad-op")
+        ⟨dustLimit Gen.Payments.minDustLimit fr wt, dustLimit Gen.Payments.minDustLimit fr ws⟩ mi
+      (⟨n, false, false⟩, "ok " ++ digest n)
+    | _, _, _, _, _, _, _, _, _, _ => (s, "bad-op")
   | _ =>
   if s.dead then (s, "dead") else
   match toks with
@@ -96,15 +106,29 @@ def step (s : St) (toks : List String) : St × String :=
     | some h, some amt, some now =>
       approve s h ⟨amt, now + Gen.Payments.keysendExpiry + Gen.Payments.keysendPruneTime, [0, h]⟩ now
     | _, _, _ => (s, "bad-op")
+  | ["allowpayee"] => ({ s with allow := true }, "ok " ++ digest s.node)
+  -- `add_keysend` / `add_invoice` called directly: the table-full refusal comes before everything else
+  | ["keysend", h, amt, now, "direct"] =>
+    match nat? h, nat? amt, nat? now with
+    | some h, some amt, some now =>
+      if s.node.directRefusedByLimit then (s, "err " ++ digest s.node) else
+      approve s h ⟨amt, now + Gen.Payments.keysendExpiry + Gen.Payments.keysendPruneTime, [0, h]⟩ now
+    | _, _, _ => (s, "bad-op")
+  | ["invoice", h, amt, ts, exp, id, "direct"] =>
+    match nat? h, nat? amt, nat? ts, nat? exp, nat? id with
+    | some h, some amt, some ts, some exp, some id =>
+      if s.node.directRefusedByLimit then (s, "err " ++ digest s.node) else
+      approve s h ⟨amt, ts + exp + Gen.Payments.invoicePruneTime, [1, amt, ts, exp, id]⟩ ts
+    | _, _, _, _, _ => (s, "bad-op")
   | ["keysend", h, amt, now, "neg"] =>
     match nat? h, nat? amt, nat? now with
     | some h, some amt, some now =>
-      decline s h ⟨amt, now + Gen.Payments.keysendExpiry + Gen.Payments.keysendPruneTime, [0, h]⟩
+      propose s false false h ⟨amt, now + Gen.Payments.keysendExpiry + Gen.Payments.keysendPruneTime, [0, h]⟩ now
     | _, _, _ => (s, "bad-op")
   | ["invoice", h, amt, ts, exp, id, "neg"] =>
     match nat? h, nat? amt, nat? ts, nat? exp, nat? id with
     | some h, some amt, some ts, some exp, some id =>
-      decline s h ⟨amt, ts + exp + Gen.Payments.invoicePruneTime, [1, amt, ts, exp, id]⟩
+      propose s true false h ⟨amt, ts + exp + Gen.Payments.invoicePruneTime, [1, amt, ts, exp, id]⟩ ts
     | _, _, _, _, _ => (s, "bad-op")
   | ["invoice", h, amt, ts, exp, id] =>
     match nat? h, nat? amt, nat? ts, nat? exp, nat? id with
@@ -143,6 +167,6 @@ def step (s : St) (toks : List String) : St × String :=
   | ["restart"] => run s .restart (fun _ => "ok")
   | _ => (s, "bad-op")
 
-def model : Model := { σ := St, init := ⟨Node.init 0 ⟨0, 0, 0⟩, false⟩, step := step }
+def model : Model := { σ := St, init := ⟨Node.init 0 ⟨0, 0, 0⟩, false, false⟩, step := step }
 
 end VlsModel.Drv.Payments
